@@ -100,6 +100,32 @@ def run(ctx):
             for k in (1, 7, 8, 15, 16):
                 reject("truncate-padblock", body[:-k], name)
                 reject("extend-padblock", body + body[-k:], name)
+    # edits of the credential STRING (not of its decoded bytes): a second credential, text or padding between the first
+    # and the last suffix, two armored bodies in one string, whitespace: extension and splice at the armor level
+    for b in bases[:3]:
+        for cls, s_ in hostile.armor_strings(ctx, b["cred"]):
+            if not cls.startswith("armor/valid") or cls in ("armor/valid", "armor/valid-ws"):
+                continue
+            d, m, diff = cr.decode_both(s_, uid=1, gid=1)
+            ctx.count(("string-edit", cls, s_[:60]))
+            dist["string-edit"] = dist.get("string-edit", 0) + 1
+            if diff:
+                mism.append(dict(cr.mismatches[-1], kind="string-edit"))
+            if d is None:
+                fails.append({"why": "no reply for an edited credential string (%s of %s)" % (cls, b["name"]), "cred_hex": s_.hex()[:3000]})
+            elif d["error_num"] in (0,) + SOFT:
+                fails.append({"why": "ALTERED credential accepted: string edit %s of %s (text spliced in after the first armor suffix) answered "
+                                     "with error %d, payload %r" % (cls, b["name"], d["error_num"], d["data"][:40]),
+                              "cred_hex": s_.hex()[:3000], "kind": "string-edit"})
+        other = [x for x in bases if x is not b][0]
+        for name, s_ in (("cred||cred2", b["cred"].rstrip(b"\0") + other["cred"]),
+                         ("body:body2:", b["cred"].rstrip(b"\0") + other["cred"].rstrip(b"\0")[6:] + b"\0")):
+            d, m, diff = cr.decode_both(s_, uid=1, gid=1)
+            ctx.count(("string-splice", name, s_[:60]))
+            dist["string-edit"] = dist.get("string-edit", 0) + 1
+            if d is not None and d["error_num"] in (0,) + SOFT:
+                fails.append({"why": "ALTERED credential accepted: %s (two credentials in one string) answered with error %d, payload %r"
+                                     % (name, d["error_num"], d["data"][:40]), "cred_hex": s_.hex()[:3000], "kind": "string-edit"})
     # large interiors (several MAC/cipher update chunks): edits far behind the first 64 KiB, tails spliced between two credentials
     bigs = []
     for (c, m) in ((0, 5), (4, 5), (2, 3)) if not ctx.thorough else ((0, 5), (4, 5), (2, 3), (5, 6), (0, 2), (3, 4)):
